@@ -348,9 +348,24 @@ func planOp(d dialect, a, b dsch, perm func(int) []int) *op {
 				plan = &migrate.Plan{}
 				return nil
 			}
+			// A planner is shared by every plan of a driver (the package-level DefaultPlan by every plan
+			// of the process): what one plan needs (a rebuild switches foreign keys off) must not show in
+			// the next one. An unrelated, fixed change set is planned before and after the scenario's.
+			neutral := []schema.Change{&schema.AddTable{T: schema.NewTable("neutral").SetSchema(schema.New(d.schema)).AddColumns(schema.NewColumn("id").SetType(d.intT()))}}
+			before, err := d.plan.PlanChanges(context.Background(), "n", neutral)
+			if err != nil {
+				return fmt.Errorf("planning the neutral change: %w", err)
+			}
 			plan, err = d.plan.PlanChanges(context.Background(), "p", changes)
 			if err != nil {
 				return err
+			}
+			after, err := d.plan.PlanChanges(context.Background(), "n", neutral)
+			if err != nil {
+				return fmt.Errorf("planning the neutral change again: %w", err)
+			}
+			if a, b := planText(before), planText(after); a != b {
+				return fmt.Errorf("%w: an unrelated change set planned before and after this one:\n--- before\n%s--- after\n%s--- the plan in between\n%s", errReplan, a, b, planText(plan))
 			}
 			// `schema apply` plans the change set to show it and plans the same objects again to
 			// apply it: planning must not leave anything behind in its input.
